@@ -537,3 +537,12 @@ Proof.
   split; [unfold below; vm_compute; repeat constructor|].
   split; [vm_compute; discriminate|]. split; [vm_compute; discriminate|vm_compute; reflexivity].
 Qed.
+
+(* ---- third pass: an operation that the class refuses --------------------------- *)
+Lemma refusing_consistent : forall g n x,
+  let off := call g false refusing_body n x in
+  let on := call g true refusing_body n x in
+  a_outcome off = Raised /\ a_outcome on = Raised /\
+  a_receiver off = x /\ a_receiver on = x /\
+  a_placeholder off = None /\ a_placeholder on = None.
+Proof. intros g n x. cbn. repeat split; reflexivity. Qed.
